@@ -5,6 +5,10 @@ ASSUMPTIONS = [
     "generated problems stay inside the safe region of the generator (harness/gen.py): no xM shortcut, no three chained "
     "shortcuts, no '#' in columns 1-5, every ZAID with a library, no interpolation that ends in 0 — those are C08/C12's",
     "spec.py is this framework's reading of the MCNP 6.2 manual (MCNP itself is not available)",
+    "the edit kind 'placement' (problem.print_in_data_block[key] = bool) is only applied to problems inside the region "
+    "of edits._placement_plain (data-block cards of that kind are single plain lines without comments; never IMP towards "
+    "the data block; no comment between a key and its value): outside it MontePy has defects of property C09 "
+    "(notes/_RT_shared.md)",
     "the theorems are about coq/Model/Tree.v; they reach the real code through the per-run correspondence (dumped real "
     "trees, first and second format, cell parameter loop, importance trees) and the per-input validation of the parser "
     "hypothesis (flatten(parsed tree) == text read, up to the comment lines parse_input moves to the next input)",
